@@ -66,6 +66,14 @@ def gen_cases(rng, tier):
                     b2 = list(bs)
                     b2[pos:pos + w] = U.le(x, w)
                     add(idx, desc, b2)
+            # a whole offset table displaced (several fields at once): every element lies elsewhere
+            offs = [f for f in fields if f[2] == "off"]
+            if offs and j < 3:
+                for delta in (4000, 1 << 20, 1 << 31):
+                    b2 = list(bs)
+                    for (pos, w, _) in offs:
+                        b2[pos:pos + w] = U.le((U.unle(bs[pos:pos + w]) + delta) % 2 ** 32, w)
+                    add(idx, desc, b2)
         for _ in range(per):
             add(idx, desc, rng.bytes(rng.choice([0, 1, 3, 4, 8, 12, 13, 16, 20, 40])))
     return cases
